@@ -92,14 +92,17 @@ TObs == /\ IsEvent("obs") /\ Settled
 
 \* silent steps: requests as said above; the controller (the Close steps float among the writes:
 \* whether a shared file is open at the next observation depends on whether something was
-\* written after the old instance closed it); the mill right before an observation (it commutes
-\* with everything else)
+\* written after the old instance closed it); the mill where its run matters
+\* the mill's run matters before an observation and before the write that rotates the file again
+\* (two rotations with and without a run in between leave different sets of backups for a while)
+MillMatters(f) == \/ Ev.ev = "obs"
+                  \/ Ev.ev \in {"w", "wdrop"} /\ Ev.f = f /\ Len(cur[f]) >= 2 * Cap(lj[f].size)
 Silent ==
     /\ l <= Len(Trace) /\ UNCHANGED <<l, more>>
     /\ \/ \E x \in Gens : BeginPending(x) /\ Begin(x)
        \/ (\A x \in Gens : ~BeginPending(x)) /\ \E x \in Gens : EndPending(x) /\ End(x)
        \/ (\A x \in Gens : ~BeginPending(x) /\ ~EndPending(x)) /\ Controller /\ pc \notin {"ret", "fail"}
-       \/ Ev.ev = "obs" /\ Settled /\ \E f \in RollFiles : MillRun(f)
+       \/ Settled /\ \E f \in RollFiles : MillMatters(f) /\ MillRun(f)
 
 TNext == TReset \/ TCall \/ TRet \/ TWrite \/ TDrop \/ TObs \/ Silent
 TSpec == TInit /\ [][TNext]_tvars
